@@ -16,7 +16,7 @@ CONSTANTS
   AmtSet <- G_Amt
   FundSet = {3, 7, 14}
   PriceSet <- G_Price
-  ModeSet = {"ok", "noGroup", "noNonces", "inactive", "maxAtt0"}
+  ModeSet = {"ok", "noGroup", "noNonces", "inactive", "maxAtt0", "panic"}
   DtSet = {0, 1, 2, 3}
   InitBal = 6
   Depth = 32
